@@ -288,6 +288,47 @@ def run(ctx) -> None:
         else:
             r.violation("C11.R3", sh.qual, f"{what}: answers {got!r} instead of {want}", "decision of the applicability test deviates (direction of the containment test and the 'any'/reference logic decide which rules are changed; rule references of the filter are resolved against the rule by id or name; a positive answer requires the correlation and log-source tests to have passed)", sh.loc)
 
+    # which rules a filter document names: SigmaGlobalFilter.from_dict interpreted (sa.tabulate, ClassProxy) on stand-in documents.
+    # The references are what is later compared with rule names and ids: they are the document's strings, unchanged, in order.
+    from ..tabulate import ClassProxy
+    GF = "sigma.filters.SigmaGlobalFilter"
+    gf = prog.func(GF + ".from_dict")
+
+    class _FErr(Exception):
+        pass
+
+    class _ExcNS:
+        def __getattr__(self, name):
+            return _FErr
+
+    class _Ref:
+        def __init__(self, reference): self.reference = reference
+        def __eq__(self, o): return isinstance(o, _Ref) and o.reference == self.reference
+        def __repr__(self): return f"ref({self.reference!r})"
+
+    env_g = {"SigmaRuleReference": _Ref, "sigma_exceptions": _ExcNS(), "SigmaDetection": _types.SimpleNamespace(from_definition=lambda d, s=None: ("D", d)),
+             "SigmaFilterRuleReferenceError": _FErr, "SigmaFilterConditionError": _FErr}
+    IKg = {"max_steps": 6000, "behaviours": (_FErr, KeyError)}
+    docs = [("Failed_Logon", [_Ref("Failed_Logon")]), ("any", "any"), ("ANY", "any"), ("Any", "any"), ("anyone", [_Ref("anyone")]),
+            ("5013332F-8A70-4A04-BCF1-06A98A2CB8E7", [_Ref("5013332F-8A70-4A04-BCF1-06A98A2CB8E7")]),
+            (["Rule_B", "rule_a", "ANY"], [_Ref("Rule_B"), _Ref("rule_a"), _Ref("ANY")]), (["x"], [_Ref("x")]),
+            ([1, "a"], "<refused>"), (5, "<refused>"), (None, "<refused>"), ({"a": 1}, "<refused>")]
+    badg = []
+    for given, want in docs:
+        got_kw: dict = {}
+        klass = ClassProxy(prog, GF, env_g, ctor=lambda *a, **k: (got_kw.update(k), "built")[1], interp_kwargs=IKg)
+        try:
+            call_method(prog, GF, "from_dict", klass, env_g, {"flt": {"f": 1}, "condition": "flt", "rules": given}, None, interp_kwargs=IKg)
+            got = got_kw.get("rules", "<no rules argument>")
+        except _Raised as ex:
+            got = "<refused>"
+        if got != want:
+            badg.append(f"rules: {given!r} is stored as {got!r}, specified {want!r}")
+    if badg:
+        r.violation("C11.R3", gf.qual, f"from_dict: {badg[0]}", f"{len(badg)} of {len(docs)} interpreted documents deviate: the filter must name exactly the rules the document names — references are kept as written (names are case-sensitive), only the keyword 'any' is recognised in any spelling, and anything that is neither a string nor a list of strings is refused", gf.loc)
+    else:
+        r.ok("C11.R3", gf.qual, f"from_dict interpreted on {len(docs)} documents: references kept as written and in order, 'any' in any spelling, other types refused", gf.loc)
+
     # the containment relation itself, tabulated on a stand-in dataclass with the class's own fields and compare flags
     import dataclasses as _dc
     import itertools
